@@ -618,6 +618,11 @@ class C06(fw.Prop):
                         self.gres(obs["outs"], "[%s]" % POISON))
         raise ValueError(k)
 
+    # ------------------------------------------------------------------ composition with C05 (harness/c06bridge.py)
+    def extra(self, ctx, tier):
+        import c06bridge
+        return c06bridge.extra(self, ctx, tier)
+
     # ------------------------------------------------------------------ reporting
     def describe(self, case, obs):
         if case["kind"] == "hist":
